@@ -266,6 +266,11 @@ func init() {
 					Required: []string{"endblock.sub_interval", "endblock.multi_interval", "asset.charged"},
 				}
 			}
+			// weight schedule configured but the weight pinned by its range (min == max): the scheduled change and the take-rate
+			// deduction fire in the same EndBlocker and must not disturb each other
+			pinned := c09Cfg("0.3", "0", 2*U, false)
+			pinned.Assets[0].Min, pinned.Assets[0].Max = "1", "1"
+			pinned.Assets[0].ChangeRate, pinned.Assets[0].ChangeInterval = "0.5", 2*U
 			small := []string{"1", "2", "3", "10", "1000"}
 			bigA := []string{"1000000", "1000000000000000000000000", "3"}
 			if tier == "thorough" {
@@ -274,6 +279,7 @@ func init() {
 					mk("c09-r0.5-r0.999999-I1u", c09Cfg("0.5", "0.999999", 1*U, false), []string{"1", "3", "1000"}, []string{"aaa", "bbb"}, []int{3, 0, 0, 5, 0}, 8, false),
 					mk("c09-r1e-6-warmup-I2u", c09Cfg("0.000001", "0", 2*U, true), []string{"3", "1000000"}, []string{"aaa", "ccc"}, []int{3, 0, 0, 5, 0}, 8, false),
 					mk("c09-magnitude", c09Cfg("0.3", "0.5", 2*U, false), bigA, []string{"aaa", "bbb"}, []int{3, 0, 0, 4, 0}, 7, false),
+					mk("c09-pinned-weight-schedule", pinned, []string{"3", "1000"}, []string{"aaa"}, []int{2, 0, 0, 4, 0}, 6, false),
 				}
 			}
 			return []*engine.Scenario{
@@ -281,6 +287,7 @@ func init() {
 				mk("c09-r0.5-r0.999999-I1u", c09Cfg("0.5", "0.999999", 1*U, false), []string{"2", "1000"}, []string{"aaa", "bbb"}, []int{3, 0, 0, 4, 0}, 6, false),
 				mk("c09-r1e-6-warmup-I2u", c09Cfg("0.000001", "0", 2*U, true), []string{"3", "1000000"}, []string{"aaa", "ccc"}, []int{3, 0, 0, 4, 0}, 6, false),
 				mk("c09-magnitude", c09Cfg("0.3", "0.5", 2*U, false), bigA, []string{"aaa"}, []int{3, 0, 0, 4, 0}, 6, false),
+				mk("c09-pinned-weight-schedule", pinned, []string{"3", "1000"}, []string{"aaa"}, []int{2, 0, 0, 3, 0}, 5, false),
 			}
 		},
 		Assumptions: []string{
